@@ -13,9 +13,18 @@ def gen_pipeline(ctx, label, n):
         mp = G.MPS[i % 4]
         ns = G.legal(rng, mp, small=True)
         ns['numinst'] = 1
+        corner = (i % 10 == 9)
+        if corner:
+            # lecturers with capacity 0 (luq < n3 is accepted), few students with one-entry lists: the only valid
+            # matching may be the empty one
+            mp = 'spa'
+            n2 = rng.randint(2, 3)
+            ns = dict(mp='spa', numinst=1, twopl=rng.random() < 0.5, skew=None, n1=rng.randint(1, 2), n2=n2,
+                      n3=rng.randint(2, 3), pmin=1, pmax=1, t1=None, t2=None, lq=None, llq=None, uq=n2 + rng.randint(0, 1),
+                      luq=1, lt=None)
         twopl = ns['twopl']
         na = 3 if mp == 'spa' else 2
-        bf = rng.random() < 0.25 and ns['n1'] <= 4
+        bf = (rng.random() < 0.25 or corner) and ns['n1'] <= 4
         stab = twopl and not bf and rng.random() < 0.5
         pc = rng.random() < 0.3
         # max rank is unknown before generation: only default cut-offs are requested here
